@@ -1453,3 +1453,58 @@ package sdf
 //@   ensures [perpendicular-to-second-edge] r.Dot(t[2].Sub(t[0])) == 0
 //@   ensures [right-hand-rule] r.Dot(t[1].Sub(t[0]).Cross(t[2].Sub(t[0]))) > 0
 //@ end
+
+//-----------------------------------------------------------------------------
+// C18: unit conversion, the sawtooth that makes the thread periodic, and the
+// helical mapping of the screw.
+
+//@ func ThreadParameters.ToMillimetre
+//@   property C18
+//@   ensures [already-metric-is-returned-unchanged] t.Units == "mm" ==> r == t
+//@   ensures [lengths-scaled-by-25.4] t.Units != "mm" ==> r.Radius == t.Radius*25.4 && r.Pitch == t.Pitch*25.4 && r.HexFlat2Flat == t.HexFlat2Flat*25.4
+//@   ensures [angle-and-name-kept] r.Taper == t.Taper && r.Name == t.Name
+//@   ensures [result-is-metric-hence-a-second-conversion-returns-it-unchanged] r.Units == "mm"
+//@ end
+
+//@ func SawTooth
+//@   property C18
+//@   id range
+//@   requires period > 0
+//@   ensures [at-least-minus-half-period] -period/2 <= r
+//@   ensures [below-half-period] r < period/2
+//@   ensures [differs-from-x-by-a-multiple-of-the-period] real(floor((x + period/2)/period))*period == x - r
+//@ end
+
+//@ lemma sawtooth_periodic(x real, period real, n int)
+//@   property C18
+//@   requires period > 0
+//@   let a = SawTooth(x + real(n)*period, period)
+//@   let b = SawTooth(x, period)
+//@   let tq = (x + real(n)*period + period/2)/period
+//@   let q = (x + period/2)/period
+//@   assert [shifted-quotient] tq == q + real(n)
+//@   generalize tq
+//@   generalize q
+//@   ensures [period-invariant] SawTooth(x + real(n)*period, period) == SawTooth(x, period)
+//@ end
+
+//@ func Screw3D
+//@   property C18 C02
+//@   id handedness
+//@   ensures [lead-is-minus-pitch-times-starts] isnil(err) ==> r.lead == -pitch*real(starts) && r.pitch == pitch && r.length == length/2 && r.taper == taper
+//@ end
+
+//@ func ScrewSDF3.Evaluate
+//@   property C18 C02
+//@   id denotes
+//@   requires s.taper == 0 && s.pitch > 0
+//@   ensures [thread-profile-on-the-helix-within-the-length] r == max(s.thread.Evaluate(v2.Vec{SawTooth(p.Z + s.lead*math.Atan2(p.Y, p.X)/Tau, s.pitch), sqrt(p.X*p.X + p.Y*p.Y)}), abs(p.Z) - s.length)
+//@ end
+
+//@ lemma screw_z_periodic(s *ScrewSDF3, p v3.Vec)
+//@   property C18
+//@   requires s.taper == 0 && s.pitch > 0
+//@   requires abs(p.Z) <= s.length && abs(p.Z + s.pitch) <= s.length
+//@   use sawtooth_periodic(p.Z + s.lead*math.Atan2(p.Y, p.X)/Tau, s.pitch, 1)
+//@   ensures [thread-term-periodic-in-z] s.Evaluate(v3.Vec{p.X, p.Y, p.Z + s.pitch}) <= 0 <==> s.Evaluate(p) <= 0
+//@ end
